@@ -88,6 +88,31 @@ def one_fault(case, k):
     return rep, problems, final, (None if r2[0] == 'ok' else '%s: %s' % (type(r2[1]).__name__, str(r2[1])[:160]))
 
 
+def same_instance_retry(case, k, reference):
+    """the fault at write k again, and this time the retry is a second evolve() on the SAME Evolver (allowed while the
+    first call has not succeeded): it must end where an uninterrupted run ends, too"""
+    evocases.restore_db('v0')
+    evocases.install_v1(case)
+    tr = evorig.Trace(fail_at=k)
+    r = evorig.run_evolver(trace=tr)
+    from django.db import connection
+    if connection.in_atomic_block:
+        dbrig.clear_stuck_transaction('default')
+        connection.ensure_connection()
+    ev = getattr(tr, 'evolver', None)
+    if r[0] != 'error' or ev is None or tr.failed_sql is None:
+        return None
+    try:
+        ev.evolve()
+    except Exception as e:
+        return 'the retry on the same Evolver fails: %s: %s' % (type(e).__name__, str(e)[:120])
+    fin = evorig.snapshot()
+    if strip_versions(fin) != strip_versions(reference):
+        diff = [key for key in strip_versions(fin) if strip_versions(fin)[key] != strip_versions(reference)[key]]
+        return 'the retry on the same Evolver ends in a different state than the uninterrupted run: %s' % diff
+    return None
+
+
 def purge_fault_cases(ctx):
     """an upgrade that also purges an app that is no longer installed (two task classes in one run), with a fault at
     every statement of the purge: whatever the first class had done, no evolution may be recorded, the stored
@@ -260,6 +285,12 @@ def run(ctx):
             elif strip_versions(final) != strip_versions(ff['snapshot']):
                 diff = [key for key in strip_versions(final) if strip_versions(final)[key] != strip_versions(ff['snapshot'])[key]]
                 ctx.fail(None, 'the retry ends in a different state than the uninterrupted run: %s' % diff, rep)
+            # the first cases also retry on the Evolver whose run failed (clean failures only)
+            if done <= 3 and not rep.get('changed') and not is_bookkeeping(rep['failed_sql']) and ctx.time_left() > 40:
+                what = same_instance_retry(case, k, ff['snapshot'])
+                ctx.count('same_instance_retry')
+                if what:
+                    ctx.fail(None, 'fault at write #%d of %d: %s' % (k, n, what), dict(rep, retry='same Evolver'))
     purge_fault_cases(ctx)
     if book_witness is not None:
         ctx.fail(F_BOOK, 'the version/evolution records are written outside the evolution\'s transaction: a failure '
